@@ -63,5 +63,6 @@ func (a AllOf) MarshalJSON() ([]byte, error) {
 
 	b.WriteByte(']')
 
-	return b.Bytes(), nil
+	// The buffer goes back to the pool, so the result must not share its memory.
+	return append([]byte(nil), b.Bytes()...), nil
 }
